@@ -133,6 +133,18 @@ VF_EXPORT int vf_backend(int which) {
 #endif
 }
 VF_EXPORT int vf_cpu_bmi2(void) { return embedded_pairing_core_arch_x86_64_cpu_supports_bmi2_adx() ? 1 : 0; }
+// Arithmetic flags are not part of the calling convention: whatever an earlier routine left in CF / OF must not leak into the
+// next one. vf_tramp_flags(a0..a4, fn) enters fn(a0..a4) with CF = OF = SF = 1 (a tail jump, so fn returns to the caller).
+asm(".text\n"
+    ".globl vf_tramp_flags\n"
+    ".type vf_tramp_flags, @function\n"
+    "vf_tramp_flags:\n"
+    "    mov %r9, %r11\n"
+    "    mov $0x7f, %al\n"
+    "    add $1, %al\n"        /* OF = SF = 1 */
+    "    stc\n"                /* CF = 1 */
+    "    jmp *%r11\n"
+    ".size vf_tramp_flags, .-vf_tramp_flags\n");
 #else
 VF_EXPORT int vf_backend(int) { return -1; }
 VF_EXPORT int vf_cpu_bmi2(void) { return -1; }
